@@ -162,6 +162,16 @@ def check(res):
                 nd += 1
                 if nd <= 3:
                     res.violation("diff", "model (Region.v) and implementation disagree", {"script": sc[:2000], "impl": impl_regions[:1500], "model": ml[i][:1500]}, no_input=True)
+    # positions in ONE long parameter list / base list / enumeration (past 2^12 and 2^16 members)
+    import fsweep
+    ll_lines, ll_bad = fsweep.long_lists(res, "", res.tier)
+    for l, o, d in ll_bad[:2]:
+        k = "oracle:position:long-" + l.split()[1]
+        if k not in keys and d.get("bad_position") != "0":
+            keys.add(k)
+            res.violation(k, "in a %s list of %s members, position() of the member entered at index %s is not %s (%s of the sampled members report a wrong position)" %
+                          (l.split()[1], d.get("n"), d.get("first"), d.get("first"), d.get("bad_position")),
+                          {"case": l, "observed": o, "rerun": "echo '%s' | build/<hash>/asan/c09_driver" % l})
     if not all(status.values()) and not keys:
         res.violation("coq:Properties_C12.v", "proof obligation no longer checks", {"theorem_file": "Properties_C12.v", "error": coq_error_excerpt(out, "Properties_C12.v")}, no_input=True)
     res.coverage.update({
